@@ -46,6 +46,7 @@ type deferRec struct {
 
 type loopCtx struct {
 	measure *Term
+	start   *State // state at the start of the iteration (after the invariants were assumed)
 }
 
 type Frame struct {
@@ -352,6 +353,9 @@ func (ex *Exec) load(st *State, loc *Loc) Value {
 	case "elem":
 		return st.loadElem(loc.Obj, loc.Idx, loc.T)
 	case "cell":
+		if name, shared := st.Shared[loc.Cell]; shared {
+			ex.oblige(st, "safety", "shared-after-go:"+name, []string{"C04", "C15"}, tFalse, token.NoPos, ex.fnKey)
+		}
 		if v, ok := st.Cells[loc.Cell]; ok {
 			return v
 		}
@@ -392,6 +396,9 @@ func (ex *Exec) store(st *State, loc *Loc, v Value) {
 	case "elem":
 		st.storeElem(loc.Obj, loc.Idx, v)
 	case "cell":
+		if name, shared := st.Shared[loc.Cell]; shared {
+			ex.oblige(st, "safety", "shared-after-go:"+name, []string{"C04", "C15"}, tFalse, token.NoPos, ex.fnKey)
+		}
 		st.Cells[loc.Cell] = v
 		st.DirtyCells[loc.Cell] = true
 	case "whole":
